@@ -365,7 +365,25 @@ func GoValue(form string, src []MTok, fail, merr bool) interface{} {
 	return goValue(nil, form, src, fail, merr)
 }
 
+// RealValues are library types marshaled by encoding/xml's reflection (form
+// "real:<key>"): the stanza structs, alone and embedded with a payload.
+var RealValues = map[string]interface{}{
+	"message":  stanza.Message{Type: stanza.ChatMessage, To: jid.MustParse("a@example.org"), Lang: "en"},
+	"presence": stanza.Presence{},
+	"iq-ping": struct {
+		stanza.IQ
+		Ping struct{} `xml:"urn:xmpp:ping ping"`
+	}{IQ: stanza.IQ{Type: stanza.ResultIQ, To: jid.MustParse("example.org")}},
+	"message-body": struct {
+		stanza.Message
+		Body string `xml:"body"`
+	}{Message: stanza.Message{Type: stanza.ErrorMessage, ID: "own"}, Body: "a<b"},
+}
+
 func goValue(c *Call, form string, src []MTok, fail, merr bool) interface{} {
+	if strings.HasPrefix(form, "real:") {
+		return RealValues[strings.TrimPrefix(form, "real:")]
+	}
 	switch form {
 	case "writerto":
 		return writerTo{toks: XMLToks(src), fail: fail, mid: midHook(c)}
